@@ -14,4 +14,5 @@ INVARIANT FillReaches
 INVARIANT StopSound
 INVARIANT ComputeOnce
 INVARIANT BufBound
+INVARIANT Census
 CHECK_DEADLOCK FALSE
